@@ -198,6 +198,7 @@ def nested_cases(c02, tier, seed, bases, per_class):
             rr = core.rng(seed, "C02F", cls, k)
             m = f(rr, copy.deepcopy(base), rr.choice(ss))
             if m is not None:
+                m.pop("_tags", None)
                 designs.append(m); metas.append(dict(cls=cls, kind="mutant-of-nested"))
         for cls, f in NESTED_MUTATORS.items():
             for j in range(2 if quick else 3):
@@ -297,13 +298,61 @@ def b_type(r, d, s):
     return d
 
 
-def b_anon_extra(r, d, s):
+def _anon_def(d, x, c, p):
+    """definition index of the Bundle that the anonymous bundle at path `p` of connection `c` stands for (None: a Pair / unknown)"""
+    k = dict(c01b.target_bports(d, x["of"])).get(c[0])
+    e = c[1]
+    for j in range(0, len(p), 3):            # p = (1, member index, 1) per level
+        if k is None:
+            return None
+        name = e[1][p[j + 1]][0]
+        k = {sb[0]: sb[1] for sb in d["defs"][k]["subs"]}.get(name)
+        e = e[1][p[j + 1]][1]
+    return k
+
+
+def extra_member_names(d, k):
+    """names for a member that the Bundle definition `k` does NOT have, chosen to look like something it has: the '_'-joined and
+    '.'-joined PATHS of its nested members (how the flattened ports are named / how errors print them), a member's name with a
+    suffix, a sub-bundle's own definition name"""
+    own = {l[0] for l in d["defs"][k]["sigs"]} | {sb[0] for sb in d["defs"][k]["subs"]}
+    out = []
+    for path, _ in c01b.def_members(d["defs"], k):
+        if len(path) >= 2:
+            out += [("_".join(path), "flattened-path-name"), ("_".join(path[:2]), "flattened-path-name")]
+    for path, j in c01b.def_subpaths(d["defs"], k):
+        out.append((d["defs"][j]["name"], "definition-name"))
+    for n in sorted(own):
+        out.append((n + "_", "member-name-with-suffix"))
+    return [(n, t) for n, t in out if n not in own]
+
+
+def nested_anon_sites(d):
+    """(site, path) of the anonymous bundles that stand for a Bundle WITH NESTED members (on a bundle-valued port, at any level)"""
+    out = []
+    for s in bsites(d):
+        md, x, c = _bsite(d, s)
+        for p in _anons(c[1]):
+            k = _anon_def(d, x, c, p)
+            if k is not None and any(t == "flattened-path-name" for _, t in extra_member_names(d, k)):
+                out.append((s, p))
+    return out
+
+
+def b_anon_extra(r, d, s, p=None, force_flat=False):
     md, x, c = _bsite(d, s)
-    p = _pick(r, c, _anons)
+    p = _pick(r, c, _anons) if p is None else p
     if p is None:
         return None
     a = _at(c, p)
-    a[1].append(["zz_extra", ["sig", md["sigs"][0][0]] if md["sigs"] else ["sig", md["ports"][0][0]] if md["ports"] else a[1][0][1]])
+    k = _anon_def(d, x, c, p)
+    names = extra_member_names(d, k) if k is not None else []
+    flat = [nt for nt in names if nt[1] == "flattened-path-name"]
+    name, kind = r.choice(flat) if flat and (force_flat or r.random() < 0.6) else r.choice(names) if names and r.random() < 0.5 else ("zz_extra", "unrelated-name")
+    if any(me[0] == name for me in a[1]):
+        name, kind = "zz_extra", "unrelated-name"
+    a[1].append([name, ["sig", md["sigs"][0][0]] if md["sigs"] else ["sig", md["ports"][0][0]] if md["ports"] else a[1][0][1]])
+    d["_tags"] = [kind]
     return d
 
 
@@ -350,7 +399,50 @@ def b_extra(r, d, s):
     return d
 
 
-BUNDLE_MUTATORS = dict(b_orphan=b_orphan, b_badmember=b_badmember, b_type=b_type, b_anon_extra=b_anon_extra, b_anon_missing=b_anon_missing,
+def nc_ref_anon_sites(d):
+    """(site, path, member index, instance, port): a scalar anonymous-bundle member that is a whole Signal of the module, and a port of the same
+    width on another single instance, plainly connected and referred to by nobody - where `b_nc_ref_anon` can plant its fault"""
+    out = []
+    for s in bsites(d):
+        md, x, c = _bsite(d, s)
+        txt = json.dumps(md["insts"])
+        for p in _anons(c[1]):
+            a = _at(c, p)
+            for k, (n, sub) in enumerate(a[1]):
+                w = D.sig_width(md, sub[1]) if sub[0] == "sig" else None
+                if w is None:
+                    continue
+                for y in md["insts"]:
+                    if y is x or y["n"] > 0 or y.get("pair"):
+                        continue
+                    for cc in y["conns"]:
+                        if (dict(c01b.target_sports(d, y["of"])).get(cc[0]) == w and cc[1][0] in ("sig", "sl", "cat")
+                                and json.dumps(["ref", y["name"], cc[0]]) not in txt):
+                            out.append((s, p, k, y["name"], cc[0]))
+    return out
+
+
+def b_nc_ref_anon(r, d, s, where=None):
+    """a no-connect that is also referenced elsewhere - the reference is a MEMBER OF AN ANONYMOUS BUNDLE on a bundle-valued port
+    (whole, behind a full-width slice, or as the only part of a concatenation)"""
+    cands = [t for t in nc_ref_anon_sites(d) if t[0] == s] if where is None else [where]
+    if not cands:
+        return None
+    s, p, k, yname, q = r.choice(cands)
+    md, x, c = _bsite(d, s)
+    y = D.find_inst(md, yname)
+    for cc in y["conns"]:
+        if cc[0] == q:
+            cc[1] = ["nc", 9200, None]
+    ref = ["ref", yname, q]
+    u = r.random()
+    how = "whole" if u < 0.5 else "sliced" if u < 0.75 else "concatenated"
+    _at(c, p)[1][k][1] = ref if how == "whole" else ["sl", ref, ["s", None, None, None]] if how == "sliced" else ["cat", [ref]]
+    d["_tags"] = ["nc-ref-in-anon", "nc-ref-in-anon:" + how]
+    return d
+
+
+BUNDLE_MUTATORS = dict(b_nc_ref_anon=b_nc_ref_anon, b_orphan=b_orphan, b_badmember=b_badmember, b_type=b_type, b_anon_extra=b_anon_extra, b_anon_missing=b_anon_missing,
                        b_anon_width=b_anon_width, b_missing=b_missing, b_extra=b_extra)
 
 
@@ -382,7 +474,57 @@ def bundle_cases(tier, seed):
                     if m is not None:
                         break
                 if m is not None:
-                    designs.append(m); metas.append(dict(cls=cls, kind="bundle-mutant"))
+                    tags = m.pop("_tags", [])
+                    designs.append(m); metas.append(dict(cls=cls, kind="bundle-mutant", tags=tags))
+    # strengthening round: base designs SELECTED for having an anonymous bundle on a port whose Bundle has nested members (about 8% of
+    # what the generator makes), and on each the extra member named like the '_'-joined path of a nested member, top and deep
+    k, found = 0, 0
+    while found < (6 if quick else 30) and k < 4000:
+        r = core.rng(seed, "C02F", "bbase-nested", k)
+        k += 1
+        d = c01b.gen_bdesign(r, size=r.choice([1, 2]))
+        ns = nested_anon_sites(d)
+        if len(c01b.terminals(d)) > 90 or not ns:
+            continue
+        found += 1
+        designs.append(d); metas.append(dict(cls="bundle-base", kind="base", tags=["has-nested-anon"]))
+        deep = [sp for sp in ns if sp[0][0] != d["top"]]
+        for j, pool in enumerate([ns, deep or ns]):
+            rr = core.rng(seed, "C02F", "b_anon_extra_path", k * 4 + j)
+            s, p = rr.choice(pool)
+            m = b_anon_extra(rr, copy.deepcopy(d), s, p, force_flat=True)
+            if m is not None:
+                tags = m.pop("_tags", []) + ["top" if s[0] == d["top"] else "deep"]
+                designs.append(m); metas.append(dict(cls="b_anon_extra", kind="bundle-mutant", tags=tags))
+        # ... and an extra member INSIDE a nested anonymous bundle (one level down from a member that exists)
+        inner = [(s, p) for s in bsites(d) for p in _anons(_bsite(d, s)[2][1]) if p != ()]
+        if inner:
+            rr = core.rng(seed, "C02F", "b_anon_extra_inner", k)
+            s, p = rr.choice(inner)
+            m = b_anon_extra(rr, copy.deepcopy(d), s, p)
+            if m is not None:
+                tags = m.pop("_tags", []) + ["inside-nested-anon"]
+                designs.append(m); metas.append(dict(cls="b_anon_extra", kind="bundle-mutant", tags=tags))
+    # ... and base designs SELECTED for having an anonymous-bundle member beside a port it could refer to: the no-connect that is also
+    # referenced through an anonymous-bundle member, top and deep
+    k, found = 0, 0
+    while found < (6 if quick else 30) and k < 4000:
+        r = core.rng(seed, "C02F", "bbase-ncanon", k)
+        k += 1
+        d = c01b.gen_bdesign(r, size=r.choice([1, 2]))
+        ns = nc_ref_anon_sites(d)
+        if len(c01b.terminals(d)) > 90 or not ns:
+            continue
+        found += 1
+        designs.append(d); metas.append(dict(cls="bundle-base", kind="base", tags=["has-anon-member-beside-port"]))
+        deep = [t for t in ns if t[0][0] != d["top"]]
+        for j, pool in enumerate([ns, deep or ns]):
+            rr = core.rng(seed, "C02F", "b_nc_ref_anon_sel", k * 4 + j)
+            t = rr.choice(pool)
+            m = b_nc_ref_anon(rr, copy.deepcopy(d), t[0], where=t)
+            if m is not None:
+                tags = m.pop("_tags", []) + ["top" if t[0][0] == d["top"] else "deep"]
+                designs.append(m); metas.append(dict(cls="b_nc_ref_anon", kind="bundle-mutant", tags=tags))
     return designs, metas
 
 
@@ -461,8 +603,10 @@ def run_tie(run, tier, seed, bases, per_class):
     bimpl_rej = {i: bouts[i]["pkg"] is None for i in range(nb)}
     bper = {}
     for i, mt in enumerate(bmetas):
-        e = bper.setdefault(mt["cls"], dict(cases=0, agree=0, model_rejects=0, impl_rejects=0, refused_by_constructors=0, in_scope=0, stages={}))
+        e = bper.setdefault(mt["cls"], dict(cases=0, agree=0, model_rejects=0, impl_rejects=0, refused_by_constructors=0, in_scope=0, stages={}, tags={}))
         e["cases"] += 1
+        for tg in mt.get("tags", []):
+            e["tags"][tg] = e["tags"].get(tg, 0) + 1
         e["agree"] += int(bcode[i] == 0)
         e["model_rejects"] += int(bstage[i] != 0)
         e["impl_rejects"] += int(bimpl_rej[i])
@@ -480,6 +624,13 @@ def run_tie(run, tier, seed, bases, per_class):
                rule="every case is a bundle design of harness/vp/c01b.py / c01g.py (corpus, generator) or a single-fault mutant of one on a "
                     "bundle / anonymous-bundle / Pair connection; distinct by design; non-trivial = has a bundle-valued or Pair connection "
                     "(all do); only the verdict of to_proto is compared (Corr/C02F.v:chk_c02fb)")
+    # strengthening round: an extra anonymous-bundle member NAMED LIKE THE FLATTENED PATH of a nested member must have been tried
+    if not [i for i in bmut_ok if "flattened-path-name" in bmetas[i].get("tags", [])]:
+        run.violation("C02F:coverage:anon-extra-flattened-path-name", "no anonymous bundle with an extra member named like the '_'-joined path of a "
+                      "nested member of the port's Bundle was rejected by both the model and the implementation", dict(kind="coverage"), found_input=False)
+    if not [i for i in bmut_ok if "nc-ref-in-anon" in bmetas[i].get("tags", [])]:
+        run.violation("C02F:coverage:nc-ref-in-anon", "no design with a no-connected port that is also referred to by an anonymous-bundle member "
+                      "was rejected by both the model and the implementation", dict(kind="coverage"), found_input=False)
     if not bmut_ok:
         run.violation("C02F:coverage:bundles", "no bundle mutant was rejected by both the model and the implementation", dict(kind="coverage"), found_input=False)
     _report(run, "C02FB", "pipeline-model-bundles", bdesigns, bmetas, bouts, bcode, bstage, nb,
